@@ -69,6 +69,7 @@ pub fn read_directories(
         root_dir_offset_length,
         leaf_dir_offset,
         &filter_range,
+        0,
     )?;
 
     Ok(tiles)
@@ -127,11 +128,17 @@ pub async fn read_directories_async(
         root_dir_offset_length,
         leaf_dir_offset,
         &filter_range,
+        0,
     )
     .await?;
 
     Ok(tiles)
 }
+
+/// Maximum nesting depth of leaf directories below the root directory.
+///
+/// Archives produced by the common writers use at most two levels below the root.
+const MAX_DIRECTORY_DEPTH: u8 = 8;
 
 /// Get (inclusive) end of range bounds.
 ///
@@ -158,7 +165,17 @@ async fn fn_name(
     (dir_offset, dir_length): (u64, u64),
     leaf_dir_offset: u64,
     filter_range: &FilterRangeTraits,
+    depth: u8,
 ) -> Result<()> {
+    // leaf directories may point to further leaf directories, but a crafted archive can make
+    // them point at themselves or form arbitrarily long chains
+    if depth > MAX_DIRECTORY_DEPTH {
+        return Err(std::io::Error::new(
+            std::io::ErrorKind::InvalidData,
+            "Leaf directories are nested too deeply.",
+        ));
+    }
+
     seek_start([reader], [dir_offset])?;
     let directory = read_directory([reader], [dir_length], [compression])?;
     let range_end = range_end_inc(filter_range).unwrap_or(u64::MAX);
@@ -184,6 +201,7 @@ async fn fn_name(
                 (leaf_offset, u64::from(entry.length)),
                 leaf_dir_offset,
                 filter_range,
+                depth + 1,
             )])?;
             continue;
         }
